@@ -18,6 +18,8 @@ SPEC = {
         "Sema.C17.C17_route_nil", "Sema.C17.C17_routed_up", "Sema.C17.C17_route_unreachable", "Sema.C17.C17_route_zero_retries",
         "Sema.C17.C17_failed_message_routed", "Sema.C17.C17_failed_message_delete", "Sema.C17.C17_failed_message_routed_delete", "Sema.C17.C17_search_routed",
         "Sema.C17.C17_tie", "Sema.C17.C17_tie_sorted",
+        # the chain Go source -> generated definition -> model -> specification closed: C17_tie composed with the specification
+        "Sema.C17.C17_tie_curate", "Sema.C17.C17_curate_generated",
     ],
     "trusted_base": [
         "the hand-written model SemaModel/C17/Model.lean (transcription of cluster/actions.go UpdatePoints, DeletePoints, curateFailedPoints incl. the loop of slices.BinarySearchFunc, SearchPoints); mitigated by the line-by-line correspondence on real clusters",
